@@ -25,6 +25,10 @@ import (
 type GlobalModel struct {
 	st    *pstate // final state of the initialisers
 	immut map[*ssa.Global]bool
+	// shallow: the variable itself is never assigned outside its initialiser (every use is a plain load); what its
+	// value refers to may still be written through a copy, so only values without interior (scalars, strings,
+	// interfaces compared for identity or nil-ness, function values) are resolved through it
+	shallow map[*ssa.Global]bool
 	inits map[*ssa.Function]bool
 }
 
@@ -85,6 +89,7 @@ func (p *Program) Globals() *GlobalModel {
 	}
 	// immutability census
 	cand := map[*ssa.Global]bool{}
+	onlyLoaded := map[*ssa.Global]bool{}
 	for _, pkg := range []*ssa.Package{p.GrammarSSA, p.BexprSSA} {
 		if pkg == nil {
 			continue
@@ -92,6 +97,7 @@ func (p *Program) Globals() *GlobalModel {
 		for _, m := range pkg.Members {
 			if g, ok := m.(*ssa.Global); ok {
 				cand[g] = true
+				onlyLoaded[g] = true
 			}
 		}
 	}
@@ -110,6 +116,9 @@ func (p *Program) Globals() *GlobalModel {
 					if !readOnlyUse(ins, g, 0) && !(isWholeLoad(ins, g) && gm.sharingFieldsNil(g)) {
 						cand[g] = false
 					}
+					if !isWholeLoad(ins, g) {
+						onlyLoaded[g] = false
+					}
 				}
 			}
 		}
@@ -117,6 +126,12 @@ func (p *Program) Globals() *GlobalModel {
 	for g, ok := range cand {
 		if ok {
 			gm.immut[g] = true
+		}
+	}
+	gm.shallow = map[*ssa.Global]bool{}
+	for g, ok := range onlyLoaded {
+		if ok {
+			gm.shallow[g] = true
 		}
 	}
 	return gm
@@ -298,8 +313,19 @@ func isIntegral(t types.Type) bool {
 
 // loadGlobal: the value at a constant path of an initialise-once global.
 func (gm *GlobalModel) loadGlobal(g *ssa.Global, path []string, t types.Type) (*Sym, bool) {
-	if gm == nil || !gm.immut[g] {
+	if gm == nil {
 		return nil, false
+	}
+	if !gm.immut[g] {
+		// assigned once, loaded whole: a value without interior is what the initialiser gave it
+		if !gm.shallow[g] || len(path) != 0 || t == nil {
+			return nil, false
+		}
+		switch t.Underlying().(type) {
+		case *types.Basic, *types.Interface, *types.Signature:
+		default:
+			return nil, false
+		}
 	}
 	c, ok := gm.st.gcells[g]
 	if !ok {
